@@ -218,6 +218,23 @@ func c03Walk(ctx *report.Ctx, c *explore.Chooser, partName string, p *yc.Program
 		}
 	}
 	hs := &yc.HostSpec{Vars: init}
+	// poke(x): a host function that writes $v = x into the host's storer while the dialogue is running a chain of statements
+	hs.ModelFuncs = map[string]yc.ModelFunc{"poke": func(m *yc.Machine, args []yc.Value) yc.FuncResult {
+		if len(args) != 1 {
+			return yc.FuncResult{Err: true}
+		}
+		m.Store["v"] = args[0]
+		return yc.FuncResult{}
+	}}
+	wo.Setup = func(r *yc.Real, log *[]string) {
+		r.DR.AddFunction("poke", func(args []*variable.Value) (*variable.Value, error) {
+			if len(args) != 1 {
+				return nil, fmt.Errorf("poke takes one argument")
+			}
+			cur.hostWrite("v", yc.RealArgs(args)[0])
+			return nil, nil
+		})
+	}
 	walkProgram(ctx, c, partName, p, hs, wo, nil, "initial store {"+initString(init)+"}", []string{"harness storer", "wrapped InMemoryStorer", "harness storer handing out its own boxed values"}[storerKind])
 }
 
@@ -293,6 +310,30 @@ func runC03(ctx *report.Ctx) {
 		}
 		p := &yc.Program{Nodes: []*yc.Node{{Title: "A", Body: []*yc.Stmt{yc.Line("L0"), yc.Set(name, allOps[k], e), yc.Line("L1"), readLine("v"), readLine("w")}}}}
 		c03Walk(ctx, c, "RF", p, init, kind, 0, 2, 1)
+	})
+
+	// MIDCHAIN: the storer is the source of truth also inside one call of Next: an assignment, then a host function that
+	// writes the variable into the storer (called by the script: <<call poke(x)>>), then a compound assignment or a
+	// type-checked assignment - no line in between: the last statement works on what the storer holds now
+	part(ctx, "MIDCHAIN", 0, func(c *explore.Chooser) {
+		firsts := []*yc.Stmt{yc.Set("v", "=", yc.ENumber(10)), yc.Declare("v", yc.ENumber(10)), yc.Set("v", "=", yc.EString("a")), yc.Set("v", "=", yc.EBoolean(true)), nil}
+		pokes := []*yc.Expr{yc.ENumber(4), yc.EString("b"), yc.EBoolean(false)}
+		first := firsts[c.Choose(len(firsts), "first")]
+		poke := pokes[c.Choose(len(pokes), "poked-value")]
+		k := c.Choose(len(allOps), "op")
+		rhs := []*yc.Expr{yc.ENumber(1), yc.EString("c"), yc.EBoolean(true), yc.EVariable("v")}
+		e := rhs[c.Choose(len(rhs), "rhs")]
+		kind := c.Choose(3, "storer")
+		if !c.Mine() {
+			return
+		}
+		body := []*yc.Stmt{yc.Line("L0")}
+		if first != nil {
+			body = append(body, first)
+		}
+		body = append(body, yc.Call("poke", poke), yc.Set("v", allOps[k], e), yc.Line("L1"), readLine("v"))
+		p := &yc.Program{Nodes: []*yc.Node{{Title: "A", Body: body}}}
+		c03Walk(ctx, c, "MIDCHAIN", p, map[string]yc.Value{}, kind, 0, 2)
 	})
 
 	// H: histories
